@@ -800,6 +800,24 @@ fn nb_case(cx: &mut Ctx, n: usize, m: usize, i: usize, j: usize) {
                         vec!["--case".into(), replay.clone()],
                     );
                 }
+                else if (n + m + i + j) % 3 == 0 {
+                    // the same iterator through a random script of Iterator calls
+                    let mut r = Rng::new(mix(&[0x4e1, k as u64, n as u64, m as u64, i as u64, j as u64]));
+                    let res = catch(|| match k {
+                        0 => common::iter_protocol(iter_neighbours_4(n, m, i, j), &want, &mut r, 6),
+                        1 => common::iter_protocol(iter_neighbours_4d(n, m, i, j), &want, &mut r, 6),
+                        _ => common::iter_protocol(iter_neighbours_8(n, m, i, j), &want, &mut r, 6),
+                    });
+                    match res {
+                        Ok(Ok(calls)) => cx.rep.count("iterator_protocol_calls", calls),
+                        Ok(Err(e)) => cx.rep.violation(
+                            format!("{}:protocol", name),
+                            base().set("what", "the neighbour iterator seen through standard Iterator calls does not behave like the expected list").set("script", e).set("want", format!("{:?}", want)),
+                            vec!["--case".into(), replay.clone()],
+                        ),
+                        Err(p) => cx.lib_panic(&func, &p, base(), &replay),
+                    }
+                }
                 if cx.sample {
                     cx.rep.sample(base().set("yielded", format!("{:?}", got)));
                 }
